@@ -71,8 +71,13 @@ COLLAPSE = Contract(
 COLLAPSE.ground_rounds = 3
 # proved per instance of the timeframe length (t % tf with a symbolic tf is nonlinear integer arithmetic that the
 # solvers do not finish inside the budget): seconds, minutes, hours, days
+import os as _os
+
 HEX_TASKS = {}
-for _tf in (1, 300, 3600, 86400):
+_TFS = (1, 300, 3600, 86400)
+if _os.environ.get("HEXVC_TIER") == "thorough":
+    _TFS = (1, 5, 60, 300, 900, 2700, 3600, 14400, 86400, 604800)  # every TimeFrame length class plus odd ones
+for _tf in _TFS:
     HEX_TASKS[CM + f"collapse_candles#tf={_tf}s"] = dict(qualname=CM + "collapse_candles", builder=manager_store_builder(False, _tf), contract=COLLAPSE)
 LOOPS = {
     (CM + "collapse_candles", 0): LoopSpec(
@@ -224,7 +229,7 @@ FILL = Contract(
     result_type="None", props=["C12"], use_at_calls=False)
 FILL.ground_rounds = 3
 FILL.max_terms = 160
-for _tf in (1, 300, 86400):
+for _tf in ((1, 300, 86400) if _os.environ.get("HEXVC_TIER") != "thorough" else (1, 5, 60, 300, 900, 3600, 14400, 86400, 604800)):
     HEX_TASKS[CM + f"fill_missing_candles#tf={_tf}s"] = dict(qualname=CM + "fill_missing_candles", builder=fill_builder(_tf), contract=FILL, natives=STORE_NATIVES)
 LOOPS[(CM + "fill_missing_candles", 0)] = LoopSpec(
     invariant=FILL_INV,
